@@ -102,7 +102,13 @@ fn containers(seed: u64, tier: Tier) -> Vec<(String, Logical)> {
                         },
                         dedup: false,
                         aux_seed: rng.next_u64(),
-                        opts: Default::default(),
+                        // embedded packs all recorded with the same empty location, or listed out
+                        // of id order
+                        opts: gen::LogicalOpts {
+                            empty_locations: k % 4 == 0,
+                            shuffle_manifest: k % 3 == 0,
+                            ..Default::default()
+                        },
                     },
                 ));
             }
@@ -121,7 +127,10 @@ fn containers(seed: u64, tier: Tier) -> Vec<(String, Logical)> {
                     },
                     dedup: false,
                     aux_seed: rng.next_u64(),
-                    opts: Default::default(),
+                    opts: gen::LogicalOpts {
+                        shuffle_manifest: k % 2 == 1,
+                        ..Default::default()
+                    },
                 },
             ));
         }
@@ -202,6 +211,7 @@ struct Image {
     foreign: Vec<u8>,
     /// all packs live inside the entry file (concat): nothing at a recorded location matters
     embedded: bool,
+    empty_locations: bool,
 }
 
 fn apply_fault(dir: &Path, img: &Image, case: &Case) {
@@ -211,6 +221,9 @@ fn apply_fault(dir: &Path, img: &Image, case: &Case) {
         }
         let name = &img.pack_file[&p];
         let path = dir.join(name);
+        if img.embedded && img.empty_locations {
+            continue;
+        }
         if img.embedded {
             // the recorded location of an embedded pack: leave it empty, put a directory there, or
             // a different valid pack (a stale file)
@@ -473,6 +486,7 @@ pub fn worker_main(args: &Args, w: usize, n: usize) -> ! {
             pristine,
             foreign: foreign.clone(),
             embedded,
+            empty_locations: logical.opts.empty_locations,
         };
         let cases = cases_for(img.model.n_packs, simcore::prng::hash_label(args.seed, &name, 0));
         let total = cases.len() as u64;
